@@ -2,7 +2,7 @@
 """vlib.py — shared machinery of the /verif checks: builds (implementation from /repo's working tree,
 Coq development, extracted model), proof-obligation checking, L1 correspondence runs, oracle runs,
 evidence, replays, known findings."""
-import hashlib, json, os, random, re, shutil, subprocess, sys, time
+import time, hashlib, json, os, random, re, shutil, subprocess, sys, time
 
 VERIF = os.path.dirname(os.path.dirname(os.path.abspath(__file__)))
 REPO = os.environ.get("VERIF_REPO", "/repo")
@@ -155,25 +155,44 @@ def check_proofs(prop, theorems):
 
 
 # ------------------------------------------------------------------ L1 runs
-def run_lines(exe, lines, timeout=600, cwd=None, env=None):
+def run_lines(exe, lines, timeout=None, cwd=None, env=None, max_hangs=3, max_crashes=40, budget=900):
     """Feed case lines to an executable that answers one line per case. Tolerates crashes: the case on which
-    the process died gets 'CRASH <rc>' and the rest is retried in a fresh process."""
+    the process died gets 'CRASH <rc>' and the rest is retried in a fresh process.  Tolerates hangs: when the process
+    does not get through its cases in time (far beyond what the whole batch needs), the case it stopped at gets 'HANG' and
+    the rest is retried; after max_hangs of them the remaining cases get 'SKIPPED' (every one would cost another wait)."""
     results = []
     i = 0
+    hangs = crashes = 0
+    t_start = time.time()
     while i < len(lines):
         chunk = lines[i:]
         e = dict(os.environ)
         if env:
             e.update(env)
-        p = subprocess.run(["setsid", exe], input=("\n".join(chunk) + "\n").encode(), capture_output=True,
-                           timeout=timeout, cwd=cwd, env=e)
-        out = p.stdout.decode(errors="replace").splitlines()
+        tmo = timeout or max(60, len(chunk) // 100)
+        try:
+            p = subprocess.run(["setsid", exe], input=("\n".join(chunk) + "\n").encode(), capture_output=True,
+                               timeout=tmo, cwd=cwd, env=e)
+            out = p.stdout.decode(errors="replace").splitlines()
+            note = "CRASH rc=%d %s" % (p.returncode, p.stderr.decode(errors="replace")[-300:].replace("\n", " | "))
+        except subprocess.TimeoutExpired as ex:
+            out = (ex.stdout or b"").decode(errors="replace").splitlines()
+            if (ex.stdout or b"") and not (ex.stdout or b"").endswith(b"\n") and out:
+                out = out[:-1]
+            note = "HANG no answer within %d s" % tmo
+            hangs += 1
         if len(out) >= len(chunk):
             results += out[:len(chunk)]
             break
         results += out
-        results.append("CRASH rc=%d %s" % (p.returncode, p.stderr.decode(errors="replace")[-300:].replace("\n", " | ")))
+        results.append(note)
         i += len(out) + 1
+        if not note.startswith("HANG"):
+            crashes += 1
+        # a build that dies or hangs on case after case has said what there is to say: the rest is not waited for
+        if hangs >= max_hangs or crashes >= max_crashes or time.time() - t_start > budget:
+            results += ["SKIPPED after %d hangs, %d crashes, %d s" % (hangs, crashes, time.time() - t_start)] * (len(lines) - i)
+            break
     return results
 
 
